@@ -173,6 +173,8 @@ def num(v) -> float:
 
 
 def tokens(s):
+    """identifiers of a text (numeric literals such as 1.5E-1 removed first)"""
+    s = re.sub(r"(?<![\w.])(?:\d+\.?\d*|\.\d+)(?:[eE][+-]?\d+)?", " ", s)
     return set(re.findall(r"[A-Za-z_]\w*", s))
 
 
@@ -536,9 +538,6 @@ def shrink_job(f):
     return cm.shrink_failure(check, f, f["_shrink"]["base"], keep_components=f["_shrink"].get("keep_components", False), max_steps=80, max_seconds=max(3.0, min(20.0, left * 0.45)))
 
 
-_run, replay = cm.make_api(globals())
+from oracles._b_helpers import scoped_api  # noqa: E402
 
-
-def run(tier, seed, focus, deadline):
-    DEADLINE[0] = deadline
-    return _run(tier, seed, focus, deadline)
+run, replay = scoped_api(globals(), "c11run_", before_run=lambda deadline: DEADLINE.__setitem__(0, deadline))
